@@ -122,17 +122,21 @@ Variable R : vsock -> vsock -> Prop.
 Hypothesis R_refl : forall s, R s s.
 Hypothesis R_trans : forall a b c, R a b -> R b c -> R a c.
 
+(* only the SOk results matter: an error ends the poll with Ready *)
+Definition stRk {A} (s : vsock) (m : step A) : Prop :=
+  match m with SOk s' _ => R s s' | _ => True end.
+
 Hypothesis H_start : forall s, R s (poll_start s).
-Hypothesis H_syn_ack : forall s, stR R s (maybe_send_syn_ack s).
-Hypothesis H_send_ack : forall s, stR R s (send_ack s).
-Hypothesis H_pim : forall s, stR R s (process_all_incoming_messages cci s).
+Hypothesis H_syn_ack : forall s, stRk s (maybe_send_syn_ack s).
+Hypothesis H_send_ack : forall s, stRk s (send_ack s).
+Hypothesis H_pim : forall s, stRk s (process_all_incoming_messages cci s).
 Hypothesis H_flush : forall s rx1 fb w,
   rx_flush (v_rx s) = (rx1, FlOk fb, w) -> R s (add_wakes (set_rx s rx1) (rx_wakes w)).
-Hypothesis H_split : forall s, stR R s (split_tx_queue_into_segments cci s).
-Hypothesis H_stq : forall s, stR R s (send_tx_queue cci s).
+Hypothesis H_split : forall s, stRk s (split_tx_queue_into_segments cci s).
+Hypothesis H_stq : forall s, stRk s (send_tx_queue cci s).
 Hypothesis H_fw1 : forall s, R s (transition_to_fin_wait_1 s).
-Hypothesis H_fin : forall s, stR R s (maybe_send_fin s).
-Hypothesis H_msa : forall s, stR R s (maybe_send_ack s).
+Hypothesis H_fin : forall s, stRk s (maybe_send_fin s).
+Hypothesis H_msa : forall s, stRk s (maybe_send_ack s).
 
 (* what a Pending result / a restart of one iteration tells *)
 Definition pend_shape (s0 s' : vsock) : Prop :=
@@ -164,16 +168,16 @@ Proof.
 Qed.
 
 Lemma bail_Rp : forall A (m : step A) k (s : vsock),
-  stR R s m -> (forall s1 a, v_restart s1 = false -> brRp s1 (k s1 a)) -> brRp s (bail m k).
+  stRk s m -> (forall s1 a, v_restart s1 = false -> brRp s1 (k s1 a)) -> brRp s (bail m k).
 Proof.
-  intros A m k s Fm Fk. unfold bail. destruct m as [s1 a|s1 e|]; cbn [stR] in Fm.
+  intros A m k s Fm Fk. unfold bail. destruct m as [s1 a|s1 e|]; cbn [stRk] in Fm.
   - destruct (v_restart s1) eqn:Rs; [exact Fm|]. eapply brRp_trans; [exact Fm | apply Fk; exact Rs].
   - unfold die. exact I.
   - exact I.
 Qed.
 
 Lemma pend_Rp : forall A (m : step A) k (s : vsock),
-  stR R s m ->
+  stRk s m ->
   (forall s1 a, v_restart s1 = false -> v_transport_pending s1 = false -> brRp s1 (k s1 a)) ->
   brRp s (pend m k).
 Proof.
@@ -203,7 +207,7 @@ Proof.
   clearbody s7. eapply brRp_trans; [exact F7|].
   apply pend_Rp; [apply H_fin|]. intros s8 _ _ _.
   pose proof (H_msa s8) as F9.
-  unfold pend, bail. destruct (maybe_send_ack s8) as [s9 b9|s9 e9|] eqn:E9; cbn [stR] in F9; try exact I.
+  unfold pend, bail. destruct (maybe_send_ack s8) as [s9 b9|s9 e9|] eqn:E9; cbn [stRk] in F9; try exact I.
   destruct (v_restart s9) eqn:R9; [exact F9|].
   destruct (v_transport_pending s9) eqn:T9; [left; split; [exact T9 | exact F9]|].
   destruct (state_is_closed _ _) eqn:C9; [exact I|].
@@ -238,6 +242,9 @@ Proof.
 Qed.
 
 End PollRelPending.
+
+Lemma stR_stRk : forall (R : vsock -> vsock -> Prop) A (s : vsock) (m : step A), stR R s m -> stRk R s m.
+Proof. intros R A s m H. destruct m; cbn [stR stRk] in *; auto. Qed.
 
 (* ------------------------------------------------------------------ staged Hoare reasoning for
    the polls that return Pending.  A restart is requested by send_tx_queue only (every other
